@@ -90,11 +90,11 @@ def main():
         setup_cmd="python3 tools/setup.py",
         hooks=dict(guard="OP2UTILITY_VERIF",
                    enable="checks copy /repo's working tree to a scratch directory and build it with -DOP2UTILITY_VERIF; the only hook code is "
-                          "src/Stream/VerifTrace.h plus one OP2UTILITY_VERIF_SCOPE line at the top of each MemoryReader / FileReader / SliceReader operation: "
+                          "src/Stream/VerifTrace.h plus one OP2UTILITY_VERIF_SCOPE line at the top of each reader (MemoryReader / FileReader / SliceReader) and writer (MemoryWriter / DynamicMemoryWriter / FileWriter) operation: "
                           "with the environment variable OP2UTILITY_VERIF_TRACE set, every stream operation appends one JSON line (used to validate the "
                           "repository's own test suite against Trace_StreamOps.tla in C12 / C13); everything else is observed through the public API",
                    baseline_off_cmd="make -C /repo -j8 -k check",
-                   source_commits=["ee937de"], add_only=True),
+                   source_commits=["ee937de", "fd69ab6"], add_only=True),
         engines=[dict(name="tlc+harness", path="/verif/tools/check.py", serves_properties=sorted(set(CHECKS) - set(NOT_YET)),
                       kind_free_text="TLA+ specifications in /verif/spec checked and enumerated by TLC; C++ conformance harnesses in /verif/harness "
                                      "replay TLC-generated behaviours on the code (pipeline G) and record executions that TLC validates (pipeline V); "
